@@ -48,6 +48,18 @@ def value_differ(x, y):
         return not (x is None and y is None)
     if type(x) in (list, tuple) and type(y) in (list, tuple) and type(x) is not type(y):
         return True
+    if type(x) in (list, tuple) and type(y) in (list, tuple):
+        # member by member, so that the exact type of each member counts (a population [0, 1] is not [0.0, 1.0])
+        if len(x) != len(y):
+            return True
+        parts = []
+        for a, b in zip(x, y):
+            d = value_differ(a, b)
+            if d is True:
+                return True
+            if d is not False:
+                parts.append(d)
+        return z3.Or(*parts) if parts else False
     # exact type matters for returned groups (0 vs 0.0 vs False)
     if not isinstance(x, Sym) and not isinstance(y, Sym) and not isinstance(x, (list, tuple)):
         if type(x) is not type(y):
